@@ -1,4 +1,4 @@
     requires rule is Match,
              // every queued path is a key of the re-keyed artifact map (the queue starts as the cleaned paths and only shrinks)
              forall|p: VirtualTargetPath| src_artifact_queue@.contains(p) ==> #[trigger] rekeyed(src_artifacts@).contains_key(p),   // [C14]
-    ensures r@ == match_consumed(*rule, src_artifacts@, src_artifact_queue@, items_metadata@),   // [C03]
+    ensures r@ == match_consumed(*rule, src_artifacts@, src_artifact_queue@, items_metadata@),   // [C03,C08,C13]
